@@ -42,6 +42,14 @@ func init() {
 		},
 		run: runC18,
 	}
+	worlds["C17"] = worldDef{
+		gen: func(seed uint64, tier string) (*Scenario, *Outcome) { return genGob(seed, tier), nil },
+		run: runGob,
+	}
+	worlds["C12"] = worldDef{
+		gen: func(seed uint64, tier string) (*Scenario, *Outcome) { return genParse(seed, tier), nil },
+		run: runParse,
+	}
 	worlds["C19"] = worldDef{
 		gen: func(seed uint64, tier string) (*Scenario, *Outcome) {
 			sc := genCtx(seed, tier)
@@ -81,7 +89,9 @@ type Summary struct {
 	SeedFirst  uint64                 `json:"seed_first"`
 	Runs       int                    `json:"runs"`
 	Nontrivial int                    `json:"nontrivial"`
-	Digests    []string               `json:"digests"`   // digests of non-trivial scenarios
+	Scenarios  int                    `json:"scenarios"`
+	Keys       []uint64               `json:"keys"`
+	KeyCount   int                    `json:"key_count"`
 	Schedules  []uint64               `json:"schedules"` // distinct schedule signatures
 	Steps      uint64                 `json:"steps"`     // logical steps (yields)
 	Ops        int                    `json:"ops"`
@@ -168,6 +178,7 @@ func main() {
 	start := time.Now()
 	sum := &Summary{Property: *prop, Worker: *worker, SeedFirst: *seed0, Counters: map[string]int{}, KnownSeen: map[string]int{}}
 	scheds := map[uint64]bool{}
+	keys := map[uint64]struct{}{}
 	sigs := map[string]bool{}
 	for i := 0; i < *runs; i++ {
 		if *budget > 0 && time.Since(start) > *budget {
@@ -185,7 +196,12 @@ func main() {
 		if *dump {
 			fmt.Fprintf(os.Stderr, "seed %d steps %d t=%.2fs infra=%q viol=%v\n", seed, o.Steps, time.Since(start).Seconds(), o.Infra, o.Violation != nil)
 		}
-		sum.Runs++
+		if o.Evals > 0 {
+			sum.Runs += o.Evals
+		} else {
+			sum.Runs++
+		}
+		sum.Scenarios++
 		sum.Steps += o.Steps
 		sum.Ops += o.Ops
 		addCounters(sum.Counters, o.Rep)
@@ -205,7 +221,13 @@ func main() {
 		}
 		if o.Nontrivial {
 			sum.Nontrivial++
-			sum.Digests = append(sum.Digests, sc.Digest())
+			if len(o.Keys) > 0 {
+				for _, k := range o.Keys {
+					keys[k] = struct{}{}
+				}
+			} else {
+				keys[digest64(sc.Digest())] = struct{}{}
+			}
 		}
 		if o.Rep != nil && o.Rep.Switches > 0 && !scheds[o.Rep.Sched] {
 			scheds[o.Rep.Sched] = true
@@ -226,6 +248,9 @@ func main() {
 			}
 			sigs[o.Violation.Sig] = true
 			orig := o.Violation
+			if o.Repro != nil {
+				sc = o.Repro
+			}
 			sc.Expect = o.Violation
 			small, evals := shrink(sc, wd.run, 60*time.Second)
 			path := filepath.Join(*replayDir, fmt.Sprintf("%s-%d.json", *prop, seed))
@@ -234,6 +259,12 @@ func main() {
 			if len(sum.Violations) >= *maxViol {
 				break
 			}
+		}
+	}
+	sum.KeyCount = len(keys)
+	if len(keys) <= 400000 {
+		for k := range keys {
+			sum.Keys = append(sum.Keys, k)
 		}
 	}
 	sum.SiteHits = verifrt.SiteHits
@@ -327,4 +358,10 @@ func abbreviate(sc *Scenario) *Scenario {
 		}
 	}
 	return c
+}
+
+func digest64(hexs string) uint64 {
+	var v uint64
+	fmt.Sscanf(hexs, "%16x", &v)
+	return v
 }
